@@ -44,8 +44,13 @@ private:
 		template <typename ...Args>
 		auto operator() (Args && ...args) const
 			-> typename std::enable_if<internal_::CanInvoke<Callback, Args ...>::value, void>::type {
-			if(--data->triggerCount <= 0) {
+			// Don't decrease the count when it's not larger than 1, that avoids
+			// signed overflow when triggerCount is INT_MIN.
+			if(data->triggerCount <= 1) {
 				data->dispatcher.removeListener(data->event, data->handle);
+			}
+			else {
+				--data->triggerCount;
 			}
 			data->listener(std::forward<Args>(args)...);
 		}
@@ -127,8 +132,13 @@ private:
 		template <typename ...Args>
 		auto operator() (Args && ...args) const
 			-> typename std::enable_if<internal_::CanInvoke<Callback, Args ...>::value, void>::type {
-			if(--data->triggerCount <= 0) {
+			// Don't decrease the count when it's not larger than 1, that avoids
+			// signed overflow when triggerCount is INT_MIN.
+			if(data->triggerCount <= 1) {
 				data->callbackList.remove(data->handle);
+			}
+			else {
+				--data->triggerCount;
 			}
 			data->listener(std::forward<Args>(args)...);
 		}
